@@ -55,7 +55,9 @@ func (b *RetriableBatcher) Out(data *WorkerData, batch *Batch) {
 	var timer *time.Timer
 	numTries := 0
 	for {
+		verifTrace(vtRetryCall, b.batcher, verifBatchSeq(batch), int64(numTries), 0, 0)
 		err := b.outFn(data, batch)
+		verifTrace(vtRetryResult, b.batcher, verifBatchSeq(batch), int64(numTries), verifBool(err == nil), 0)
 		if err == nil {
 			return
 		}
@@ -65,6 +67,7 @@ func (b *RetriableBatcher) Out(data *WorkerData, batch *Batch) {
 			if batch != nil {
 				events = batch.events
 			}
+			verifTrace(vtRetryGiveUp, b.batcher, verifBatchSeq(batch), int64(numTries), int64(len(events)), verifBool(b.isDeadQueueAvailable)+2*verifBool(next == backoff.Stop))
 			b.onRetryError(err, events)
 			if batch != nil && b.isDeadQueueAvailable {
 				batch.reset()
